@@ -150,7 +150,12 @@ func TestC27(t *testing.T) {
 		for i, nb := 0, rapid.IntRange(0, 4).Draw(rt, "nbursts"); i < nb; i++ {
 			bursts = append(bursts, rapid.SampledFrom([]int{1, 40, 100, 300, 511, 600, 1500, 2000, 5000}).Draw(rt, "burst"))
 		}
-		w.setScript(target, &respScript{Raw: raw.Bytes(), CloseAfter: closeAfter, Bursts: bursts})
+		// the end of a chunked body may arrive well after its last data (several flush intervals later)
+		tailPause := 0
+		if framing == "chunked" && !noBody && stale == "" && rapid.IntRange(0, 2).Draw(rt, "tail-pause") == 0 {
+			tailPause = rapid.SampledFrom([]int{4, 10, 25}).Draw(rt, "tail-pause-ms")
+		}
+		w.setScript(target, &respScript{Raw: raw.Bytes(), CloseAfter: closeAfter, Bursts: bursts, TailPauseMs: tailPause})
 		// client request
 		var rq bytes.Buffer
 		fmt.Fprintf(&rq, "%s %s %s\r\nHost: example.org\r\n", method, target, cver)
@@ -171,6 +176,9 @@ func TestC27(t *testing.T) {
 		}
 		if stale != "" {
 			cls = append(cls, "stale-bytes-after-backend-response")
+		}
+		if tailPause > 0 {
+			cls = append(cls, "chunked-terminator-delayed")
 		}
 		if noBody {
 			cls = append(cls, "bodiless")
